@@ -22,7 +22,7 @@ fn login_flow<const L: usize>() {
     let pw = crate::normalized_string::verif_h::any_name(L as u8);
     let d0 = verif_oracle::n_draws();
     let ver = SrpVerifier::from_username_and_password(name.clone(), pw.clone());
-    assert!(verif_oracle::n_draws() == d0 + 1, "C01: registration did not draw exactly one salt");
+    assert!(verif_oracle::n_draws() == d0 + 1, "harness: registration did not draw exactly one value (the flow harness reads the salt from the draw log)");
     let salt = draw32(d0);
 
     // ---- export to storage and re-import ----
@@ -41,7 +41,7 @@ fn login_flow<const L: usize>() {
 
     // ---- challenge (server) ----
     let proof = ver.into_proof();
-    assert!(verif_oracle::n_draws() == d0 + 2, "C01: into_proof did not draw exactly one private key");
+    assert!(verif_oracle::n_draws() == d0 + 2, "harness: into_proof did not draw exactly one value (the flow harness reads b from the draw log)");
     let b = draw32(d0 + 1);
     let b_pub_bytes = *proof.server_public_key();
     let salt_sent = *proof.salt();
@@ -59,7 +59,7 @@ fn login_flow<const L: usize>() {
     let n_le = crate::LARGE_SAFE_PRIME_LITTLE_ENDIAN;
     let g = crate::GENERATOR;
     let challenge = SrpClientChallenge::new(cname, cpw, g, n_le, b_pub, salt_sent);
-    assert!(verif_oracle::n_draws() == d0 + 3, "C01: the client did not draw exactly one private key");
+    assert!(verif_oracle::n_draws() == d0 + 3, "harness: the client did not draw exactly one value (the flow harness reads a from the draw log)");
     let a = draw32(d0 + 2);
     let a_pub_bytes = *challenge.client_public_key();
     let m1 = *challenge.client_proof();
